@@ -9256,20 +9256,23 @@ class TensorDictBase(MutableMapping):
             return imap
         else:
             imaplist = []
-            start = 0
-            base_index = (slice(None),) * dim
-            for item in imap:
-                if item is not None:
-                    if out is not None:
-                        if chunksize == 0:
-                            out[base_index + (start,)].update_(item)
-                            start += 1
-                        else:
-                            end = start + item.shape[dim]
-                            chunk = base_index + (slice(start, end),)
-                            out[chunk].update_(item)
-                            start = end
-                    else:
+            if out is not None:
+                # the k-th result belongs to the k-th chunk of out, whether or not
+                # the results that precede it are None
+                out_split = _split_tensordict(
+                    out,
+                    chunksize,
+                    num_chunks,
+                    num_workers,
+                    dim,
+                    use_generator=index_with_generator,
+                )
+                for item, out_chunk in _zip_strict(imap, out_split):
+                    if item is not None:
+                        out_chunk.update_(item)
+            else:
+                for item in imap:
+                    if item is not None:
                         imaplist.append(item)
             del imap
 
